@@ -343,3 +343,12 @@ def constant_laws(ctx, model, c, where, prop='C03', tag=''):
         s = np.asarray(s, dtype=float)
         ctx.check(s.shape == (7,) and (s == c).all(), 'constant.sample-is-c', prop + ':constant-sample-not-c' + tag,
                   lambda: dict(where, c=c, sample=s))
+
+
+def selected_family(model):
+    """Class name of the family a selecting Univariate wrapper chose (public dict first)."""
+    try:
+        return model.to_dict()['type'].rsplit('.', 1)[-1]
+    except Exception:  # noqa: BLE001
+        inner = getattr(model, '_instance', None)
+        return type(inner).__name__ if inner is not None else None
